@@ -37,6 +37,7 @@ func runC07(c *Ctx) {
 	L.Trusts("IEEE-754 comparison semantics: every ordered comparison with NaN is false, != is true")
 	c.checkSelectedSitesOnly("selected-sites-only")
 	c.checkArgNameOrder("arg-name-order", "distance/dna", "cmd")
+	c.checkEstimatorFormulas("estimator-formula")
 }
 
 // ---------------------------------------------------------------------------
